@@ -129,7 +129,7 @@ def run(ctx: common.Ctx):
             variants.append((f"v{v}", pv))
         for vn, pv in variants:
             jobs.append(cexec.Job(tag=f"p{i}:{vn}", expr=pv.expr(), runs=runs, prep=_prep_dedup,
-                                  kir_orders=2, kir_seed=ctx.seed + i, want_wire=True))
+                                  kir_orders=2, kir_seed=ctx.seed + i, want_wire=True, want_source=True))
             meta.append((i, vn, pv, runs, base))
     results = cexec.run_jobs(ctx, jobs)
     dis = 0
@@ -192,6 +192,12 @@ def run(ctx: common.Ctx):
             got = out[name]
             if ref is not None and not close(got, ref[name], single=base.uses_single()):
                 dis += 1
+                from .c01 import _c_bitwise_next_to_comparison
+                stmt = _c_bitwise_next_to_comparison(getattr(res, "source", None) or "")
+                if stmt:
+                    ctx.violation("loopy-c-printer:operand-of-comparison-not-parenthesized",
+                                  f"program {i} variant {vn}: loopy prints `{stmt}`", {"program_index": i, "variant": vn})
+                    continue
                 ctx.violation("tags:value-differs-from-reference" if vn != "untagged" else "loopy:value-mismatch",
                               f"program {i} variant {vn} output {name}: value differs from the reference",
                               {"program_index": i, "variant": vn, "seed": ctx.seed, "output": name,
